@@ -48,6 +48,7 @@ def accepts (cfg : Cfg) (env : Env) (r : Request) : Bool :=
   rulesOK cfg env r
   && (match cfg.jwt with | some j => jwtOK j env r.std.headers | none => true)
   && (match cfg.sig with | some s => sigValidate s env r (some r.payload) | none => true)
+  && (match cfg.oauth2 with | some o => jwtOK ⟨o.alg, o.secret, []⟩ { env with cookie := fun _ => none } r.std.headers | none => true)
   && (!cfg.basic || (basicUser env r.std.headers).isSome)
 
 def expected (cfg : Cfg) (env : Env) (r : Request) : Outcome :=
